@@ -440,6 +440,17 @@ struct Driver {
         rng.shuffle(L);
         add_cell_op(L, true, true);
     }
+    // the other quadrangulation of the sphere with 8 vertices, 12 edges and 6 proper quads (degrees 4,4,3,3,3,3,2,2):
+    // closed, both walks of check_halfface_ordering succeed, eight distinct vertices, but the first two halffaces
+    // share two vertices (C16K, findings/C16-quad-sphere-hex.md; rejected since 7800c85)
+    void quad_sphere_attempt() {
+        int w[8]; for (int& x : w) x = v_of_abs(fresh_abs());
+        static const int F[6][4] = {{0, 1, 2, 3}, {4, 0, 5, 2}, {1, 0, 4, 6}, {3, 2, 5, 7}, {2, 1, 6, 4}, {0, 3, 7, 5}};
+        std::vector<long> L;
+        for (auto& f : F) { int hf = ensure_hf({w[f[0]], w[f[1]], w[f[2]], w[f[3]]}); if (hf < 0) return; L.push_back(hf); }
+        if (rng.chance(1, 3)) rng.shuffle(L);
+        if (add_cell_op(L, true, true) && last_res != "-1") exec(mk("delete_cell", {atol(last_res.c_str())}));
+    }
     // a hexahedron with two diagonally opposite vertices identified: closed, every face a proper quad,
     // 7 distinct vertices (judged separately: C16J)
     void pinched_attempt() {
@@ -578,6 +589,7 @@ struct Driver {
             else if (w < 34) pinched_attempt();
             else if (w < 37) outside_cell();
             else if (w < 40) add_mirrored_neighbour();
+            else if (w < 44 && w >= 42) quad_sphere_attempt();
             else if (w < 42) { std::vector<int> lf = live(2); if (!lf.empty()) { std::vector<int> hes = hf_hes(2 * rng.pick(lf)); hes.pop_back();
                                Op op; op.name = "add_face_he"; op.a = {1, 3, hes[0], hes[1], hes[2]}; exec(op, true); } }
         }
